@@ -171,6 +171,10 @@ func runC04(r *fw.Run) {
 	r.Rule("C04-R7", "the value/argument/directive equalities that field-merge validation relies on read every field the matching Copy function treats as content of the node (positions are not content; four frozen, reasoned exceptions)")
 	copyEqualAgreement(r, "C04-R7", 12)
 
+	r.Rule("C04-R8", "in the validation rules the ref of an ast.Value is handed to an accessor of kind K only where the value's kind is known to be K (the rules run on operations that are not yet known to be valid)")
+	nKR := kindRefAgreement(r, "C04-R8", []string{"astvalidation"}, nil)
+	r.Expect("C04-R8", "kind-specific uses of a value's ref in astvalidation", nKR, 10)
+
 	// ---- R3 admission sequence --------------------------------------------------------------------
 	r.Rule("C04-R3", "ExecutionEngine.Execute plans only after normalization succeeded (when needed) and then ValidateForSchema returned err == nil ∧ Valid; it resolves only when planning reported no error")
 	engineAdmission(r, "C04-R3", false)
